@@ -79,47 +79,54 @@ class Equivalence:
 
   def diffscript(self, other, selfvar):
     outscript = []
-    for diffitem in self.diff(other):
+    def quoted(value):
+      return str(value).replace("\\","\\\\").replace("'","\\'")
+    differences = self.diff(other)
+    if isinstance(differences, tuple):
+      # (the lines are not comparable: a single item is returned)
+      differences = [differences]
+    for diffitem in differences:
       if diffitem[0] == "incompatible":
         if diffitem[1] == "record_type":
           raise gfapy.RuntimeError(
             "Cannot compute conversion script: different record type\n"+
             "Line: {}\n".format(self)+
             "Other: {}\n".format(other)+
-            "{0} != {1}",format(diffitem[2], diffitem[3]))
+            "{0} != {1}".format(diffitem[2], diffitem[3]))
         elif diffitem[1] == "version":
           raise gfapy.RuntimeError(
             "Cannot compute conversion script: different GFA version\n"+
             "Line: {}\n".format(self)+
             "Other: {}\n".format(other)+
-            "{0} != {1}",format(diffitem[2], diffitem[3]))
+            "{0} != {1}".format(diffitem[2], diffitem[3]))
       elif diffitem[0] == "different":
         if diffitem[1] == "positional_field":
           outscript.append("{0}.set('{1}', '{2}')".format(selfvar,
-                                      diffitem[2].replace("'","\\'"),
-                                      diffitem[4].replace("'","\\'")))
+                                      quoted(diffitem[2]),
+                                      quoted(diffitem[4])))
         elif diffitem[1] == "tag":
           if diffitem[3] != diffitem[5]:
             outscript.append("{0}.set_datatype('{1}', '{2}')".format(selfvar,
-                                      diffitem[2].replace("'","\\'"),
-                                      diffitem[5].replace("'","\\'")))
+                                      quoted(diffitem[2]),
+                                      quoted(diffitem[5])))
           if diffitem[4] != diffitem[6]:
             outscript.append("{0}.set('{1}', '{2}')".format(selfvar,
-                                      diffitem[2].replace("'","\\'"),
-                                      diffitem[6].replace("'","\\'")))
+                                      quoted(diffitem[2]),
+                                      quoted(diffitem[6])))
       elif diffitem[0] == "exclusive":
         if diffitem[1] == ">":
           if diffitem[2] == "tag":
             outscript.append("{0}.set_datatype('{1}', '{2}')".format(selfvar,
-                                      diffitem[3].replace("'","\\'"),
-                                      diffitem[4].replace("'","\\'")))
+                                      quoted(diffitem[3]),
+                                      quoted(diffitem[4])))
+            # (the value in the syntax of its datatype, as for the other tags)
             outscript.append("{0}.set('{1}', '{2}')".format(selfvar,
-                                      diffitem[3].replace("'","\\'"),
-                                      diffitem[5].replace("'","\\'")))
+                                      quoted(diffitem[3]),
+                                      quoted(other.field_to_s(diffitem[3]))))
         elif diffitem[1] == "<":
           if diffitem[2] == "tag":
             outscript.append("{0}.delete('{1}')".format(selfvar,
-                                      diffitem[3].replace("'","\\'")))
+                                      quoted(diffitem[3])))
     return "\n".join(outscript)
 
 
